@@ -273,9 +273,9 @@ func jobC13(c *rt.Ctx) {
 		{"key-ff", func(t *triple) { t.key = bytes.Repeat([]byte{0xff}, 32) }},
 	}
 	for _, vs := range vAll {
-		for _, n := range []int{1, 2, 3, 4, 5, 64, 65} {
+		for _, n := range []int{1, 2, 3, 4, 5, 64, 65, 70, 133} {
 			for pos := 0; pos < n; pos++ {
-				if n >= 64 && !(pos < 2 || pos >= n-3 || pos == 31) {
+				if n >= 64 && !(pos < 2 || pos >= n-3 || pos == 31 || pos == 63 || pos == 64 || pos == 66 || pos == 127 || pos == 128) {
 					continue
 				}
 				for ki, kd := range kinds {
